@@ -20,8 +20,13 @@ def build_manifest():
     na = []
     avail = main.available_ids()
     for pid in sorted(props):
+        p = None
         if pid in avail and pid not in NOT_APPLICABLE:
-            p = main.load_prop(pid)
+            try:
+                p = main.load_prop(pid)
+            except Exception as e:
+                print("cannot load %s: %r" % (pid, e))
+        if p is not None and p.ready:
             checks.append({
                 "property_id": pid,
                 "quick_cmd": "./check %s --tier quick" % pid,
